@@ -20,7 +20,8 @@ pub struct C16Case {
 
 fn gen_len16(src: &mut Source) -> usize {
     // around each matrix growth step: initial 22, then 1.5x of what is needed
-    match src.weighted(&[10, 2, 2, 2, 1]) {
+    match src.weighted(&[40, 8, 8, 8, 4, 1]) {
+        5 => src.range(126, 200),
         0 => src.below(9),
         1 => src.range(18, 23),
         2 => src.range(30, 36),
@@ -197,6 +198,91 @@ impl Case for C16Calls {
     }
 }
 
+/// The distance instance production uses lives in a thread-local behind `Store::search`; this
+/// space drives it through the registry (create / add / search / destroy the last store / create
+/// again / search) and compares every answer with a stand-alone store in a fresh thread.
+#[derive(Clone, Debug, Hash)]
+pub struct C16Registry {
+    pub lang: &'static str,
+    pub rounds: Vec<(Vec<String>, Vec<String>)>,
+}
+
+pub fn decode_registry(src: &mut Source) -> Box<dyn Case> {
+    let lang = crate::gen::gen_lang(src);
+    let plain = crate::gen::plain_letters(lang);
+    let mut word = |src: &mut Source| -> String {
+        let n = gen_len16(src).max(1).min(60);
+        let k = src.range(2, 8);
+        (0..n).map(|_| plain[src.below(k)]).collect()
+    };
+    let nr = src.range(2, 3);
+    let mut rounds = Vec::new();
+    for _ in 0..nr {
+        let titles: Vec<String> = (0..src.range(1, 3)).map(|_| format!("{} {}", word(src), word(src))).collect();
+        let queries: Vec<String> = (0..src.range(1, 3))
+            .map(|_| {
+                let t = src.pick(&titles).clone();
+                let mut w: Vec<char> = t.split(' ').next().unwrap_or("").chars().collect();
+                if src.chance(1, 2) {
+                    crate::gen::gen_edit(src, lang, &mut w);
+                }
+                if src.chance(1, 3) && w.len() > 1 {
+                    let m = 1 + src.below(w.len());
+                    w.truncate(m);
+                }
+                w.into_iter().collect()
+            })
+            .collect();
+        rounds.push((titles, queries));
+    }
+    Box::new(C16Registry { lang, rounds })
+}
+
+impl Case for C16Registry {
+    fn describe(&self) -> Value {
+        json!({"lang": self.lang, "rounds_create_add_search_destroy": self.rounds})
+    }
+    fn key(&self) -> u64 {
+        hash64(self)
+    }
+    fn check(&self, ctx: &mut Ctx) -> Result<(), Violation> {
+        let mut any = false;
+        for (ri, (titles, queries)) in self.rounds.iter().enumerate() {
+            lucid_suggest_core::create_store(1, crate::gen::lang_of(self.lang));
+            for (i, t) in titles.iter().enumerate() {
+                lucid_suggest_core::add_record(1, i + 1, t, i);
+            }
+            for q in queries {
+                lucid_suggest_core::run_search(1, q);
+                let got: Vec<(usize, String)> = lucid_suggest_core::using_results(1, |r| r.iter().map(|x| (x.id, x.title.clone())).collect());
+                let (lang, ts, q2) = (self.lang, titles.clone(), q.clone());
+                let exp = isolated(move || {
+                    let recs: Vec<crate::gen::Rec> = ts.iter().enumerate().map(|(i, t)| (i + 1, t.clone(), i)).collect();
+                    crate::gen::search(&crate::gen::build_store(lang, &recs, 10), &q2)
+                });
+                ctx.count("prefix_cells", 1);
+                match exp {
+                    Ok(e) => {
+                        if e != got {
+                            return ctx.fail("history-independence", "through-search", format!("lang={} round {} (after {} destroy/create cycles on this thread) titles={:?} query={:?}: this thread returns {:?}, a fresh thread returns {:?}", self.lang, ri, ri, titles, q, got, e));
+                        }
+                        if !e.is_empty() {
+                            any = true;
+                        }
+                    }
+                    Err(e) => return ctx.fail("history-independence", "through-search", format!("fresh-thread search panicked: {}", e)),
+                }
+            }
+            lucid_suggest_core::destroy_store(1);
+        }
+        ctx.label_if(self.rounds.iter().any(|(t, _)| t.iter().any(|x| x.split(' ').any(|w| w.chars().count() > 20))), "beyond-initial-capacity");
+        if any {
+            ctx.nontrivial();
+        }
+        Ok(())
+    }
+}
+
 pub fn decode_small(src: &mut Source) -> Box<dyn Case> {
     let la = src.below(5);
     let a: String = (0..la).map(|_| ALPHA[src.below(6)]).collect();
@@ -357,6 +443,7 @@ pub fn def() -> PropDef {
             Space { name: "small", decode: decode_small, plan: |t| match t { Tier::Quick => Plan::Enumerate(enumerate_pairs(3), true, "all ordered pairs of words of length <= 3 over 6 symbols"), Tier::Thorough => Plan::Enumerate(enumerate_pairs(4), true, "all ordered pairs of words of length <= 4 over 6 symbols") } },
             Space { name: "random", decode: decode_random, plan: |t| Plan::Random(t.n(200_000, 4_000_000)) },
             Space { name: "calls", decode: decode_calls, plan: |t| Plan::Random(t.n(120_000, 2_500_000)) },
+            Space { name: "through-search", decode: decode_registry, plan: |t| Plan::Random(t.n(40_000, 800_000)) },
         ],
         differential: false,
         floors: &[("prefix_cells", 5.0)],
